@@ -53,7 +53,8 @@ ASSUMPTIONS = [
     "Python's generator is only assumed legal: random() = k/2^53 with k < 2^53, choice(seq) a member of seq",
 ]
 TRUSTED_EXTRA = [
-    "networkx.random_regular_graph (gnd) is still an input of the model (post-conditions observed in C15.py)",
+    "gnd: the iteration order of the Python set of edges inside networkx.random_regular_graph is not modelled; the "
+    "order-free views of the resulting object (n, m, sorted rows, sorted edge set) are compared",
 ]
 NOTES = ["networkx draws from random._inst (checked: create_py_random_state(None) is random._inst); the recorder sets "
          "instance attributes on it in this process only"]
@@ -78,8 +79,8 @@ class InstRecorder:
         inst = pyrandom._inst
         self.inst = inst
         self.state = inst.getstate()
-        self.saved = {k: inst.__dict__.get(k) for k in ("random", "choice")}
-        o_random, o_choice = inst.random, inst.choice
+        self.saved = {k: inst.__dict__.get(k) for k in ("random", "choice", "shuffle")}
+        o_random, o_choice, o_shuffle = inst.random, inst.choice, inst.shuffle
         if self.mode == "seed":
             inst.seed(self.rseed)
 
@@ -126,8 +127,28 @@ class InstRecorder:
             else:
                 self.draws.append([1, x])
             return x
+        def sh(x):
+            before = list(x)
+            if self.mode == "seed":
+                o_shuffle(x)
+            else:
+                self.ncalls += 1
+                if self.ncalls > 60:
+                    self.hr.shuffle(x)        # an adversary repeating itself for ever is a non-terminating run
+                elif self.mode == "low":
+                    pass                      # identity: range(n)*d pairs up (0,1),(2,3),… again and again
+                elif self.mode == "high":
+                    x.reverse()
+                elif self.mode == "sticky":
+                    x.sort()                  # equal stubs next to each other: loops, repeated pairs, restarts
+                    if self.hr.random() < 0.3:
+                        self.hr.shuffle(x)
+                else:
+                    self.hr.shuffle(x)
+            self.draws.append([2] + enc_list(before) + enc_list(x))
         inst.random = r
         inst.choice = c
+        inst.shuffle = sh
         return self
 
     def __exit__(self, *a):
@@ -512,6 +533,61 @@ def build_gnm(info):
 
 
 
+
+# ------------------------------------------------------------------ suite nx_gnd
+def build_gnd(info):
+    n, d = info["n"], info["d"]
+    mode, rseed = info.get("mode", "seed"), info.get("rseed", 0)
+    state = {}
+    # the request models networkx + Graph.normalize; arguments that cnfgen's own guard refuses go to them directly
+    lib = bool(info.get("lib")) or not (n > d > 0 and (n * d) % 2 == 0)
+    case = Case("nx_gnd", "", None, None, cls="gnd", nontrivial=True, info=info)
+
+    def impl():
+        if create_py_random_state(None) is not pyrandom._inst:
+            raise RuntimeError("networkx does not draw from random._inst")
+        with InstRecorder(mode, rseed) as rr:
+            try:
+                if lib:
+                    res = Graph.normalize(networkx.random_regular_graph(d, n))
+                else:
+                    res = graph_build.obtain_gnd({"args": [str(n), str(d)]})
+                out = "OK {} R 0".format(fmt_simple(res))
+            except Exception as e:
+                res = e
+                out = common.exc_name(e)
+        case.req = req("nx_gnd", n, d, rr.encoded())
+        rounds = len(rr.draws)
+        restarts = sum(1 for dr in rr.draws if dr[0] == 2 and dr[1] == n * d) - 1
+        case.cls = "gnd:{}:{}".format("refused" if isinstance(res, Exception) else
+                                      ("restarted" if restarts > 0 else ("one-round" if rounds <= 1 else "several-rounds")),
+                                      "seed" if mode == "seed" else "inj-" + mode)
+        state["res"] = res
+        return out
+
+    def oracle():
+        res = state.get("res")
+        if res is None:
+            return None
+        legal = n > d > 0 and (n * d) % 2 == 0
+        if isinstance(res, Exception):
+            if lib:
+                return None                 # networkx's own refusals (NetworkXError) are its documented behaviour
+            if not isinstance(res, ValueError):
+                return {"defect": "simple:gnd:exception", "exception": type(res).__name__, "n": n, "d": d}
+            return {"defect": "simple:gnd:refused-legal", "n": n, "d": d} if legal else None
+        if not legal and not lib:
+            return {"defect": "simple:gnd:accepted-illegal", "n": n, "d": d}
+        bad = check_simple_object(res)
+        if bad or res.number_of_vertices() != n:
+            return {"defect": "gnd:object", "what": bad or "vertex count"}
+        if any(res.degree(v) != d for v in range(1, n + 1)) or 2 * res.number_of_edges() != n * d:
+            return {"defect": "gnd:not-regular", "degrees": [res.degree(v) for v in range(1, n + 1)], "d": d}
+        return None
+    case.impl, case.oracle = impl, oracle
+    case.req = req("nx_gnd", n, d, [0])
+    return case
+
 # ------------------------------------------------------------------ suite nx_cli (obtain_graph with the networkx part computed by the model)
 def build_nxcli(info):
     spec = list(info["spec"])
@@ -585,7 +661,7 @@ def build_nxcli(info):
 
 # ------------------------------------------------------------------ dispatch / generators
 BUILDERS = {"nx_grid": build_grid, "nx_line": build_line, "nx_from": build_from, "nx_product": build_product,
-            "nx_multi": build_multi, "nx_gnp": build_gnp, "nx_gnm": build_gnm, "nx_cli": build_nxcli}
+            "nx_multi": build_multi, "nx_gnp": build_gnp, "nx_gnm": build_gnm, "nx_cli": build_nxcli, "nx_gnd": build_gnd}
 
 
 def build(suite, info):
@@ -679,6 +755,18 @@ def cases(ctx):
             infos.append(("nx_gnm", dict(n=n, m=m, mode=mode, rseed=rs())))
 
 
+    # gnd
+    for n in range(1, 9 if quick else 12):
+        for d in range(0, n + 2):
+            modes = ["seed", rng.choice(MODES[1:])] if quick else MODES
+            for mode in modes:
+                infos.append(("nx_gnd", dict(n=n, d=d, mode=mode, rseed=rs())))
+            if d < n and (n * d) % 2 == 0:
+                infos.append(("nx_gnd", dict(n=n, d=d, mode="seed", rseed=rs(), lib=True)))
+    for n, d in [(20, 3), (16, 15), (30, 4), (12, 11), (13, 12), (9, 8), (10, 9)]:
+        for mode in ("seed", "sticky", "uniform"):
+            infos.append(("nx_gnd", dict(n=n, d=d, mode=mode, rseed=rs())))
+
     # the same constructions through parse_graph_argument + obtain_graph, with modifiers
     specs = []
     for dims in [["2"], ["3", "3"], ["2", "3", "2"], ["4", "1"], ["1"], ["0"], ["-2", "3"], [], ["2.5"], ["1e1"], ["3", "1e400"], ["nan"],
@@ -693,13 +781,16 @@ def cases(ctx):
     for a in [["5", "4"], ["5", "10"], ["5", "11"], ["5", "0"], ["1", "0"], ["1", "1"], ["0", "0"], ["6", "7"], ["4", "6"], ["4", "-1"],
               ["4"], ["4", "2", "1"], ["3.0", "2"], ["7", "20"], ["2", "1"]]:
         specs.append(["gnm"] + a)
+    for a in [["6", "3"], ["5", "2"], ["4", "3"], ["5", "3"], ["4", "4"], ["4", "0"], ["0", "0"], ["6", "-1"], ["6"], ["8", "3", "1"],
+              ["7", "2"], ["6.0", "2"], ["2", "1"]]:
+        specs.append(["gnd"] + a)
     options = [[], ["plantclique", "2"], ["addedges", "1"], ["splitedges", "1"], ["addedges", "2", "plantclique", "3"],
                ["save", "kthlist", "@TMP@/g.kthlist"], ["splitedges", "2", "addedges", "1", "save", "dimacs", "@TMP@/g"],
                ["plantclique", "9"], ["addedges", "50"], ["save", "@TMP@/g.nothing"]]
     for sp in specs:
         opts = [[]] + ([rng.choice(options[1:])] if quick else options[1:])
         for o in opts:
-            modes = ["seed", rng.choice(MODES[1:])] if (sp[0] in ("gnp", "gnm") or o) else ["seed"]
+            modes = ["seed", rng.choice(MODES[1:])] if (sp[0] in ("gnp", "gnm", "gnd") or o) else ["seed"]
             for mode in modes:
                 infos.append(("nx_cli", dict(spec=sp + o, mode=mode, rseed=rs())))
 
